@@ -286,6 +286,14 @@ fn gen_case(rng: &mut Rng) -> Case {
     for _ in 0..rng.usize_below(4) {
         mdc.insert(gen_s(rng, 3, false), gen_s(rng, 3, false));
     }
+    if rng.chance(1, 200) {
+        // many entries: exactly / around the sizes where a narrow counter wraps
+        let n = *rng.pick(&[255usize, 256, 257, 512, 1024]);
+        mdc.clear();
+        for k in 0..n {
+            mdc.insert(format!("k{}", k), if k % 7 == 0 { gen_s(rng, 2, false) } else { "v".to_owned() });
+        }
+    }
     Case {
         level: *rng.pick(&LEVELS),
         message: gen_s(rng, 6, false),
